@@ -27,6 +27,8 @@ type S string
 const (
 	Sa S = "alpha"
 	Sb S = "it"
+	// a value spelled like a table struct of this file: the SQL literal must not go through the table-name replacer
+	Sc S = "Item"
 )
 
 type IdItem int64
@@ -35,6 +37,7 @@ type IdItemBis int64
 // gomacro:SQL ADD CHECK(Kind = #[K.K1] OR Name = #[S.Sa])
 // gomacro:SQL ADD FOREIGN KEY (Other) REFERENCES Item ON DELETE CASCADE
 // gomacro:SQL ADD UNIQUE(Name)
+// gomacro:SQL ADD CHECK(Name <> #[S.Sc])
 // gomacro:SQL _SELECT KEY (Kind)
 // gomacro:SQL CREATE INDEX ItemBis_idx ON Item (Kind)
 // gomacro:SQL CREATE INDEX idx_Item ON Item (Name)
@@ -85,6 +88,7 @@ func TestGovcHarness_Directives(t *testing.T) {
 	expect("integer enum placeholder replaced by the number as written", strings.Contains(out, "Kind = 1 "))
 	expect("string enum placeholder replaced by a single-quoted literal", strings.Contains(out, "Name = 'alpha'") && !strings.Contains(out, `"alpha"`))
 	expect("guard value of a string enum single-quoted", strings.Contains(out, "SET DEFAULT 'it'") && !strings.Contains(out, `"it"`))
+	expect("a string enum value spelled like a table struct is kept verbatim", strings.Contains(out, "Name <> 'Item'"))
 	expect("no placeholder left", !strings.Contains(out, "#["))
 	expect("name after REFERENCES replaced by the SQL table name", strings.Contains(out, "REFERENCES items ON DELETE CASCADE"))
 	expect("ADD constraint attached to the table of its struct", strings.Contains(out, "ALTER TABLE items ADD CHECK") && strings.Contains(out, "ALTER TABLE items ADD UNIQUE"))
